@@ -79,3 +79,10 @@ TEXTS = {
     },
 }
 NOT_APPLICABLE = []
+
+TEXTS["C18"] = {
+    "level_text": "Exploration: (a) hundreds to thousands of generated cases in which the harness pauses a streaming scan inside its row callback and has generated points processed (and flushed) during the pause, decided by a before/after differential plus the reference aggregation of the prefix; deterministic and replayable because the callback places the inserts. (b) generated concurrent inserter/flusher/query-loop runs over a stream whose prefixes have unique images, each observed result decided by a schedule-independent prefix oracle. Does not establish absence; (b) samples interleavings.",
+    "design_ref": "DESIGN.md section 4 C18",
+    "level_note": "Trusts the ingestion barrier (verif hooks) used inside the callback and the reference aggregator. Only SELECT * [WHERE dims] plans stream rows while scanning; grouped plans buffer the whole scan, so for them only part (b) observes concurrent ingest.",
+    "technique": "property-based testing (rapid): schedule placed by the row callback with a differential/reference oracle, plus concurrent runs with a prefix-image invariant",
+}
